@@ -59,7 +59,7 @@ TReset ==
   /\ l' = l + 1 /\ drift' = FALSE /\ driftAt' = 0 /\ tno' = Ev.t
 
 MsgOf(e) == [reqtls |-> e.reqtls, tlsno |-> e.tlsno, quar |-> e.quar,
-             mailfail |-> e.mailfail, qlate |-> e.qlate, na |-> FALSE, pre |-> FALSE]
+             mailfail |-> e.mailfail, qlate |-> e.qlate, na |-> FALSE, pre |-> FALSE, late |-> "no"]
 
 (* connect() as a whole: the outcome of the Connect steps of Remote.tla for MX i *)
 HConnect(i, t) ==
